@@ -1257,7 +1257,7 @@ fn main() {
         // (a) harvested patterns under rg's default configuration and one random configuration each
         let harvested = harvest_patterns(&repo);
         rep.notes.push(format!("harvested {} patterns from {}", harvested.len(), repo));
-        let cap = args.cases.unwrap_or(if args.thorough { usize::MAX } else { 500 });
+        let cap = args.cases.unwrap_or(if args.thorough { usize::MAX } else { 300 });
         let step = (harvested.len() / cap.max(1)).max(1);
         for (i, p) in harvested.iter().enumerate() {
             if !args.thorough && i % step != 0 {
@@ -1277,7 +1277,7 @@ fn main() {
             let pats = enumerate(size, &mut memo);
             let total = pats.len();
             // quick tier: every pattern of size ≤ 2, a fixed stride of size 3
-            let stride = if args.thorough { if size == 4 { 9 } else { 1 } } else if size == 3 { 7 } else { 1 };
+            let stride = if args.thorough { if size == 4 { 13 } else { 1 } } else if size == 3 { 9 } else { 1 };
             for (i, p) in pats.iter().enumerate() {
                 if i % stride != 0 {
                     continue;
@@ -1306,7 +1306,7 @@ fn main() {
         rep.exhaustive = false;
         let _ = count;
         // (c) random larger patterns, random configurations, several patterns
-        let n = args.cases.unwrap_or(if args.thorough { 12000 } else { 1200 });
+        let n = args.cases.unwrap_or(if args.thorough { 8000 } else { 800 });
         for _ in 0..n {
             let np = if rng.chance(1, 5) { rng.range(2, 3) } else { 1 };
             let pats: Vec<String> = (0..np).map(|_| random_pattern(&mut rng, 3)).collect();
@@ -1333,13 +1333,13 @@ fn main() {
         // rejected; every terminator setting x -F on/off x -w/-x x pattern lists where only one has the byte
         {
             let lts: [(bool, Option<Option<u8>>); 4] = [(false, Some(Some(b'\n'))), (true, None), (false, Some(Some(0))), (true, Some(Some(0)))];
-            let raw_pats: [&str; 12] = ["a\rb", "a\r", "\r", "a\nb", "\n", "a\u{0}b", "\u{0}", "a\r\nb", "x.y\r", "[a]\r", "é\r", "ab"];
+            let raw_pats: [&str; 8] = ["a\rb", "\r", "a\nb", "a\u{0}b", "a\r\nb", "x.y\r", "é\r", "ab"];
             for (crlf, lt) in lts {
                 for fixed in [false, true] {
                     for (word, whole) in [(false, false), (true, false), (false, true)] {
                         for p in raw_pats {
                             let o = Opts { crlf, lt, fixed, word, whole, ..Opts::default_rg() };
-                            for pats in [vec![p.to_string()], vec!["foo".to_string(), p.to_string()], vec![p.to_string(), "b.r".to_string()]] {
+                            for pats in [vec![p.to_string()], vec!["foo".to_string(), p.to_string()]] {
                                 let hays = vec![b"a\rb\r\nfoo\n".to_vec(), b"a\r\n".to_vec(), b"a\0b\0".to_vec(), b"x.y\r\nab\n".to_vec()];
                                 let line = case_line(&o, &pats, &hays);
                                 run_case(&line, &mut drv, &mut rep, args.thorough);
